@@ -2,7 +2,7 @@
    FSMMachine.handle calls and memory effects, the cursor model exposes its position after every call.
    Seconds are not part of any model: they are measured by the harness. *)
 From Coq Require Import List NArith ZArith Bool String Ascii Lia.
-Require Import Base.Common Gen.LexTable Lex.Model Lex.Invariants Lex.ImplFacts Lex.C04Proofs Lex.C07Proofs Cur.Model Cur.Proofs.
+Require Import Base.Common Gen.LexTable Lex.Model Lex.Invariants Lex.ImplFacts Lex.C04Proofs Lex.C07Proofs Cur.Model Cur.Proofs Tree.Value Gen.Static Parse.Prim Parse.Model Parse.Suffix.
 Import ListNotations.
 
 (* 1. Lexing handles each input character at most twice (plus one call for the end marker): for EVERY string, accepted or
@@ -37,6 +37,13 @@ Proof. exact history_monotone. Qed.
 Theorem C19_cursor_step_bounded : forall c o, (pos (fst (step c o)) <= pos c + max_adv o)%nat.
 Proof. exact step_bounded. Qed.
 
+(* 5. The recursive-descent parser never moves its cursor backwards either: for EVERY parse function of the model, dialect, argument,
+   token list and fuel, the tokens left over are a suffix of the tokens given, so no function can hand a longer list to its caller than it
+   received and no token is scanned again by the caller (Parse/Suffix.v) *)
+Theorem C19_parser_forward_only : forall fuel f d a ts v rest,
+  run fuel f d a ts = Ok (v, rest) -> (List.length rest <= List.length ts)%nat.
+Proof. exact run_never_longer. Qed.
+
 (* non-vacuity: handle calls of "a=1 -- c" + newline, shipped flags: 10 characters, 14 calls <= 21 *)
 Example C19_example : lex_handle_calls false 7 [97; 61; 49; 32; 45; 45; 32; 99; 10; 98] = 14%nat.
 Proof. vm_compute. reflexivity. Qed.
@@ -48,4 +55,5 @@ Print Assumptions C19_prepass_not_longer.
 Print Assumptions C19_one_character_per_iteration.
 Print Assumptions C19_cursor_forward_only.
 Print Assumptions C19_cursor_step_bounded.
+Print Assumptions C19_parser_forward_only.
 Print Assumptions C19_example.
